@@ -297,7 +297,7 @@ class ExactCollections:
                 cont = content(obj, state)
             if cont is None:
                 # an object whose content is unknown: mutators keep it unknown, readers know nothing
-                return ok(NONE if attr in ("append", "extend", "insert", "remove", "clear", "sort", "reverse", "update") else TOP)
+                return ok(NONE if attr in ("append", "appendleft", "extend", "insert", "remove", "discard", "add", "clear", "sort", "reverse", "update") else TOP)
             if obj.kind == "list":
                 items = cont.items
                 if attr == "append" and len(args) == 1:
@@ -316,6 +316,12 @@ class ExactCollections:
                     lst = list(items)
                     v = lst.pop(i)
                     return ok(v, self.put(state, obj, TupleV(tuple(lst))))
+                if attr == "popleft" and not args:
+                    if not items:
+                        return [("exc", Exc(ORD, "IndexError", node.lineno), state)]
+                    return ok(items[0], self.put(state, obj, TupleV(items[1:])))
+                if attr == "appendleft" and len(args) == 1:
+                    return ok(NONE, self.put(state, obj, TupleV((args[0],) + items)))
                 if attr == "remove" and len(args) == 1:
                     m = member(args[0], items)
                     if m is True:
@@ -346,6 +352,45 @@ class ExactCollections:
                     return ok(TOP)
                 if attr == "sort":
                     return ok(NONE, self.put(state, obj, TOP if len(items) > 1 else cont))
+                return ok(TOP)
+            if obj.kind == "set":
+                # a set object: its elements in insertion order (the order a loop over it sees is unspecified in
+                # Python; what is decided with it must not depend on that order)
+                items = cont.items
+                if attr == "add" and len(args) == 1:
+                    m = member(args[0], items)
+                    if m is True:
+                        return ok(NONE)
+                    if m is False:
+                        return ok(NONE, self.put(state, obj, TupleV(items + (args[0],))))
+                    return ok(NONE, self.put(state, obj, TOP))
+                if attr in ("discard", "remove") and len(args) == 1:
+                    m = member(args[0], items)
+                    if m is True:
+                        return ok(NONE, self.put(state, obj, TupleV(tuple(x for x in items if x != args[0]))))
+                    if m is False:
+                        return ok(NONE) if attr == "discard" else [("exc", Exc(ORD, "KeyError", node.lineno), state)]
+                    return ok(NONE, self.put(state, obj, TOP)) + ([] if attr == "discard" else [("exc", Exc(ORD, "KeyError", node.lineno), state)])
+                if attr == "clear" and not args:
+                    return ok(NONE, self.put(state, obj, TupleV(())))
+                if attr == "copy" and not args:
+                    return [("ok",) + self.alloc(state, node, "set", cont)]
+                if attr == "update" and len(args) == 1:
+                    seq, st = self.consume(args[0], state)
+                    if seq is None:
+                        return ok(NONE, self.put(st, obj, TOP))
+                    cur = items
+                    for x in seq:
+                        m = member(x, cur)
+                        if m is None:
+                            return ok(NONE, self.put(st, obj, TOP))
+                        if m is False:
+                            cur = cur + (x,)
+                    return ok(NONE, self.put(st, obj, TupleV(cur)))
+                if attr == "pop" and not args:
+                    if not items:
+                        return [("exc", Exc(ORD, "KeyError", node.lineno), state)]
+                    return ok(TOP, self.mark_imprecise(self.put(state, obj, TOP), node))  # an arbitrary element
                 return ok(TOP)
             # dict objects
             if attr == "items" and not args:
@@ -522,6 +567,21 @@ class ExactCollections:
                 seq = self._seq(args[0], state)
                 if seq is not None:
                     return ok(TupleV(tuple(seq)))
+            if f.id == "set" and len(args) <= 1:
+                if not args:
+                    return [("ok",) + self.alloc(state, node, "set", TupleV(()))]
+                seq = self._seq(args[0], state)
+                if seq is not None:
+                    cur = ()
+                    for x in seq:
+                        m = member(x, cur)
+                        if m is None:
+                            cur = None
+                            break
+                        if m is False:
+                            cur = cur + (x,)
+                    if cur is not None:
+                        return [("ok",) + self.alloc(state, node, "set", TupleV(cur))]
             if f.id == "list" and len(args) <= 1:
                 if not args:
                     return [("ok",) + self.alloc(state, node, "list", TupleV(()))]
@@ -545,7 +605,7 @@ class ExactCollections:
                     else:
                         res = True if any(t is True for t in ts) else (False if all(t is False for t in ts) else None)
                     return ok(Const(res) if res is not None else TOP)
-            if f.id in ("sorted", "reversed", "set", "frozenset") and args and self._seq(args[0], state) is not None:
+            if f.id in ("sorted", "reversed", "frozenset") and args and self._seq(args[0], state) is not None:
                 return ok(TOP)
         if isinstance(f, ast.Attribute) and f.attr == "fromkeys" and isinstance(f.value, ast.Name) and f.value.id == "dict" and 1 <= len(args) <= 2:
             seq = self._seq(args[0], state)
@@ -582,6 +642,8 @@ class ExactCollections:
         if isinstance(objval, DictV):
             r = dict_get(objval, idxval)
             return (r[1], False, state) if r[0] == "hit" else ((NOVALUE, "KeyError", state) if r[0] == "miss" else (TOP, True, state))
+        if isinstance(objval, Ref) and objval.kind == "set":
+            return NOVALUE, "TypeError", state  # a set is not subscriptable
         if isinstance(objval, Ref) and objval.kind != "list":
             cont = content(objval, state)
             if cont is None:
@@ -652,6 +714,8 @@ class ExactCollections:
                     del lst[idxval.v]
                     return self.put(state, objval, TupleV(tuple(lst)))
                 return self.put(state, objval, TOP)
+            if objval.kind == "set":
+                return state
             if value is None:  # del d[k]
                 return self.put(state, objval, dict_del(cont, idxval))
             return self.put(state, objval, dict_set(cont, idxval, value))
